@@ -4,6 +4,8 @@
    event of that class that is not Written"; the overflow flag follows discards and confirmations.
    (Model of the code after fix 485ed42; before it `counters_exact` is false: corpus/C13/f3_*.) *)
 From Dnp3V Require Import Base.Bytes Outstation.DbTypes Outstation.EventBuffer Outstation.EventBufferProofs.
+From Dnp3V Require Import Outstation.Session Outstation.SessionLemmas_c13 Outstation.SessionC13Proofs.
+Import ListNotations.
 Open Scope N_scope.
 
 Theorem C13_counters_exact : forall cfg ops,
@@ -64,3 +66,291 @@ Example C13_ex_three_events :
      OpSelClass true false false None; OpWrite 100] in
   ebuf_unwritten_classes b = (false, true, true) /\ c_c1 (eb_written b) = 1 /\ c_c1 (eb_total b) = 1.
 Proof. vm_compute. repeat split. Qed.
+
+(* ================= the bits that live in the session (model Outstation/Session.v) =================
+   Quantifiers: every configuration, every state satisfying `boundary_inv` (C13_inv_reachable: every
+   state reachable from start-up by any history of events and environment answers), every event, every
+   answer list.  Function-level statements (response_iin, write_solicited, ...) hold in EVERY state.
+   `bit_of l n` is bit n of the octet whose bits are listed in l least significant first;
+   `evinfo_answer s` is the database's answer consumed by get_response_iin (all false if it gives none);
+   `bcast_pending s` is "s_last_bcast s is Some _". *)
+
+Theorem C13_inv_reachable : forall cfg s, Reach cfg s -> boundary_inv s.
+Proof. exact reach_boundary_inv. Qed.
+Print Assumptions C13_inv_reachable.
+
+Theorem C13_inv_step : forall cfg s ev ans, boundary_inv s -> boundary_inv (fst (ostep cfg s ev ans)).
+Proof. exact boundary_inv_step. Qed.
+Print Assumptions C13_inv_step.
+
+(* every IIN bit of a response: class bits and overflow are exactly the database's answer, IIN1.7 the
+   restart flag, IIN1.0 the broadcast indication, IIN1.4-6 and IIN2.5 the application's bits 0-3, and
+   no other bit is set *)
+Theorem C13_response_iin_bits : forall s s' iin1 iin2 o,
+  response_iin s = (s', (iin1, iin2), o) ->
+  let '(c1, c2, c3, ovf) := evinfo_answer s in
+  let a := s_app_iin s in
+  (forall n, N.testbit iin1 n =
+     bit_of [bcast_pending s; c1; c2; c3; N.testbit a 0; N.testbit a 1; N.testbit a 2; s_restart_iin s] n) /\
+  (forall n, N.testbit iin2 n = bit_of [false; false; false; ovf; false; N.testbit a 3; false; false] n).
+Proof. exact response_iin_bits. Qed.
+Print Assumptions C13_response_iin_bits.
+
+Theorem C13_app_iin_step : forall cfg s ev ans s' o,
+  boundary_inv s -> ostep cfg s ev ans = (s', o) ->
+  s_app_iin s' = match ev with EAppIin v => v | _ => s_app_iin s end.
+Proof. exact app_iin_step. Qed.
+Print Assumptions C13_app_iin_step.
+
+Theorem C13_restart_at_start : forall cfg sel op iin a0, s_restart_iin (fst (ostart cfg sel op iin a0)) = true.
+Proof. exact restart_at_start. Qed.
+Print Assumptions C13_restart_at_start.
+
+(* restart_clearing_event cfg ev: ev is a received WRITE (digest DOk ctl fn_write RvOk (ObjOk hdrs rh))
+   from an accepted master with clears_restart hdrs = true (a g80v1 header writing index 7 := 0) *)
+Theorem C13_restart_step : forall cfg s ev ans s' o,
+  boundary_inv s -> ostep cfg s ev ans = (s', o) ->
+  s_restart_iin s' = s_restart_iin s \/ (s_restart_iin s' = false /\ restart_clearing_event cfg ev).
+Proof. exact restart_step. Qed.
+Print Assumptions C13_restart_step.
+
+Theorem C13_restart_step_cases : forall cfg s ev ans s' o,
+  boundary_inv s -> ostep cfg s ev ans = (s', o) ->
+  (s_restart_iin s = false -> s_restart_iin s' = false) /\
+  ((forall from bc bytes d, ev <> ERx from bc bytes d) -> s_restart_iin s' = s_restart_iin s).
+Proof. exact restart_step_cases. Qed.
+Print Assumptions C13_restart_step_cases.
+
+Theorem C13_restart_until_written : forall cfg sel op iin a0 evs,
+  Forall (fun ea => ~ restart_clearing_event cfg (fst ea)) evs ->
+  s_restart_iin (ofinal cfg (fst (ostart cfg sel op iin a0)) evs) = true.
+Proof. exact restart_until_written. Qed.
+Print Assumptions C13_restart_until_written.
+
+Theorem C13_write_clears_restart_exact : forall cfg s hdrs s1 v o,
+  handle_write_headers cfg s hdrs = (s1, v, o) ->
+  s_restart_iin s1 = (if clears_restart hdrs then false else s_restart_iin s) /\
+  s_last_bcast s1 = s_last_bcast s /\ s_bcast_rep s1 = s_bcast_rep s.
+Proof. exact write_clears_restart_exact. Qed.
+Print Assumptions C13_write_clears_restart_exact.
+
+Theorem C13_broadcast_received : forall cfg s m fid ctl fn bytes obj s1 o,
+  process_broadcast cfg s m fid ctl fn bytes obj = (s1, o) ->
+  s_last_bcast s1 = Some m /\ s_bcast_rep s1 = None.
+Proof. exact broadcast_received. Qed.
+Print Assumptions C13_broadcast_received.
+
+(* bcast_cause cfg s from bc d: the fragment is a broadcast (bc <> None), or a unicast CONFIRM accepted
+   from this master (to_treq cfg from d = TqRequest ctl fn_confirm obj) that either, in the unsolicited
+   confirm wait, names the reporter (rep_eqb (s_bcast_rep s) (ctl_uns ctl) (ctl_seq ctl) = true) or, in
+   the solicited confirm wait CSolWait se _ _, is the expected one (UNS clear, sequence se_ecsn se) *)
+Theorem C13_bcast_step : forall cfg s ev ans s' o,
+  boundary_inv s -> ostep cfg s ev ans = (s', o) ->
+  s_last_bcast s' = s_last_bcast s \/
+  (s_last_bcast s' = None /\ s_last_bcast s <> Some BMandatory) \/
+  exists from bc bytes d, ev = ERx from bc bytes d /\ bcast_cause cfg s from bc d.
+Proof. exact bcast_step. Qed.
+Print Assumptions C13_bcast_step.
+
+Theorem C13_mandatory_step : forall cfg s ev ans s' o,
+  boundary_inv s -> ostep cfg s ev ans = (s', o) -> s_last_bcast s = Some BMandatory ->
+  s_last_bcast s' = Some BMandatory \/
+  exists from bc bytes d, ev = ERx from bc bytes d /\ bcast_cause cfg s from bc d.
+Proof. exact mandatory_step. Qed.
+Print Assumptions C13_mandatory_step.
+
+Theorem C13_write_solicited_reports : forall s dest r s1 r1 o,
+  write_solicited s dest r = (s1, r1, o) ->
+  (exists pre, o = pre ++ [OTx dest (response_bytes r1 (s_sol_buf s1))]) /\
+  N.testbit (r_iin1 r1) 0 = N.testbit (r_iin1 r) 0 || bcast_pending s /\
+  match s_last_bcast s with
+  | Some BMandatory =>
+      ctl_con (r_ctl r1) = true /\ s_last_bcast s1 = Some BMandatory /\
+      s_bcast_rep s1 = Some (ctl_uns (r_ctl r1), ctl_seq (r_ctl r1))
+  | _ => s_last_bcast s1 = None /\ s_bcast_rep s1 = s_bcast_rep s
+  end.
+Proof. exact write_solicited_reports. Qed.
+Print Assumptions C13_write_solicited_reports.
+
+Theorem C13_write_unsolicited_reports : forall cfg s r s1 r1 o,
+  write_unsolicited cfg s r = (s1, r1, o) ->
+  (exists pre, o = pre ++ [OTx (o_master cfg) (response_bytes r1 (s_unsol_buf s1))]) /\
+  N.testbit (r_iin1 r1) 0 = N.testbit (r_iin1 r) 0 || bcast_pending s /\
+  match s_last_bcast s with
+  | Some BMandatory =>
+      s_last_bcast s1 = Some BMandatory /\ s_bcast_rep s1 = Some (ctl_uns (r_ctl r1), ctl_seq (r_ctl r1))
+  | _ => s_last_bcast s1 = None /\ s_bcast_rep s1 = s_bcast_rep s
+  end.
+Proof. exact write_unsolicited_reports. Qed.
+Print Assumptions C13_write_unsolicited_reports.
+
+Theorem C13_bcast_reported_once : forall s m s' iin1 iin2 o,
+  response_iin s = (s', (iin1, iin2), o) -> s_last_bcast s = Some m -> m <> BMandatory ->
+  N.testbit iin1 0 = true /\ s_last_bcast s' = None /\ s_bcast_rep s' = s_bcast_rep s /\
+  forall s'' iin1' iin2' o', response_iin s' = (s'', (iin1', iin2'), o') -> N.testbit iin1' 0 = false.
+Proof. exact bcast_reported_once. Qed.
+Print Assumptions C13_bcast_reported_once.
+
+Theorem C13_response_iin_indication : forall s s' iin o,
+  response_iin s = (s', iin, o) ->
+  s_last_bcast s' = match s_last_bcast s with Some BMandatory => Some BMandatory | _ => None end /\
+  s_restart_iin s' = s_restart_iin s /\ s_bcast_rep s' = s_bcast_rep s.
+Proof. exact response_iin_indication. Qed.
+Print Assumptions C13_response_iin_indication.
+
+Theorem C13_session_reset_bits : forall s,
+  s_last_bcast (session_reset s) = s_last_bcast s /\ s_restart_iin (session_reset s) = s_restart_iin s /\
+  s_bcast_rep (session_reset s) = None /\ s_app_iin (session_reset s) = s_app_iin s.
+Proof. exact session_reset_bits. Qed.
+Print Assumptions C13_session_reset_bits.
+
+Theorem C13_disconnect_step : forall cfg s ans s' o,
+  boundary_inv s -> ostep cfg s EDisconnect ans = (s', o) ->
+  s_restart_iin s' = s_restart_iin s /\ s_app_iin s' = s_app_iin s /\
+  (s_last_bcast s' = s_last_bcast s \/ (s_last_bcast s' = None /\ s_last_bcast s <> Some BMandatory)).
+Proof. exact disconnect_step. Qed.
+Print Assumptions C13_disconnect_step.
+
+(* ---- non-vacuity: concrete reachable states (histories ex_run of Outstation/SessionC13Proofs.v:
+   start-up with application bits 9, master 1, RECORD_CURRENT_TIME requests, database answer
+   class1+class3+overflow) ---- *)
+
+Example C13_ex_reachable : forall unsol evs, Reach (ex_cfg unsol) (ex_run unsol evs).
+Proof. exact ex_run_reach. Qed.
+
+Example C13_ex_inv :
+  boundary_inv (ex_run false [(ex_bcast BMandatory, []); (ex_req 2, [ex_evinfo])]) /\
+  boundary_inv (ex_run true [(ex_bcast BMandatory, []); (ex_req 5, [ex_evinfo])]).
+Proof. exact ex_boundary_inv. Qed.
+
+(* IIN1 = 155 = restart 128 + need-time 16 + class3 8 + class1 2 + broadcast 1; IIN2 = 40 = corrupt 32 + overflow 8 *)
+Example C13_ex_response_iin_bits :
+  let s := upd_answers (ex_run false [(ex_bcast BMandatory, [])]) [ex_evinfo] in
+  evinfo_answer s = (true, false, true, true) /\ s_app_iin s = 9 /\ bcast_pending s = true /\ s_restart_iin s = true /\
+  snd (fst (response_iin s)) = (155, 40) /\
+  snd (ostep (ex_cfg false) (ex_run false [(ex_bcast BMandatory, [])]) (ex_req 2) [ex_evinfo])
+  = [OInfo (IIdleRequest 24 2); ODb DbEvinfo; OTx 1 [226; 129; 155; 40]; OInfo (IEnterSolWait 2)].
+Proof. exact ex_response_iin_bits. Qed.
+
+Example C13_ex_app_iin_step :
+  s_app_iin (ex_st0 false) = 9 /\
+  s_app_iin (fst (ostep (ex_cfg false) (ex_st0 false) (EAppIin 4) [])) = 4 /\
+  s_app_iin (fst (ostep (ex_cfg false) (ex_st0 false) (ex_req 2) [ex_evinfo])) = 9.
+Proof. exact ex_app_iin_step. Qed.
+
+Example C13_ex_restart_step :
+  boundary_inv (ex_st0 false) /\ s_restart_iin (ex_st0 false) = true /\
+  s_restart_iin (fst (ostep (ex_cfg false) (ex_st0 false) (ex_write_clear 1) [ex_evinfo])) = false /\
+  restart_clearing_event (ex_cfg false) (ex_write_clear 1) /\
+  s_restart_iin (fst (ostep (ex_cfg false) (ex_st0 false) (ex_req 1) [ex_evinfo])) = true.
+Proof. exact ex_restart_step. Qed.
+
+Example C13_ex_restart_step_cases :
+  let s := ex_run false [(ex_write_clear 1, [ex_evinfo])] in
+  s_restart_iin s = false /\
+  s_restart_iin (fst (ostep (ex_cfg false) s (ex_req 2) [ex_evinfo])) = false /\
+  s_restart_iin (fst (ostep (ex_cfg false) (ex_st0 false) EDisconnect [])) = true.
+Proof. exact ex_restart_step_cases. Qed.
+
+Example C13_ex_restart_until_written :
+  let evs := [(EDisconnect, []); (ESleep 100000, []); (ex_bcast BOptional, []); (ex_req 2, [ex_evinfo])] in
+  Forall (fun ea => ~ restart_clearing_event (ex_cfg false) (fst ea)) evs /\
+  s_restart_iin (ex_run false evs) = true.
+Proof. exact ex_restart_until_written. Qed.
+
+Example C13_ex_write_clears_restart_exact :
+  s_restart_iin (fst (fst (handle_write_headers (ex_cfg false) (ex_st0 false) [WIin [(7, false)]]))) = false /\
+  s_restart_iin (fst (fst (handle_write_headers (ex_cfg false) (ex_st0 false) [WIin [(7, true)]; WAttr]))) = true /\
+  clears_restart [WIin [(4, false); (7, false)]] = true /\ clears_restart [WIin [(7, true)]; WAttr] = false.
+Proof. exact ex_write_clears_restart_exact. Qed.
+
+Example C13_ex_broadcast_received :
+  ex_view (ex_run false [(ex_bcast BMandatory, [])]) = (CIdle, true, Some BMandatory, None) /\
+  ex_view (ex_run false [(ex_bcast BMandatory, []); (ex_req 2, [ex_evinfo]); (ESleep 6000, []); (ex_bcast BOptional, [])])
+  = (CIdle, true, Some BOptional, None).
+Proof. exact ex_broadcast_received. Qed.
+
+(* solicited: CONFIRM 3 leaves the indication, the expected CONFIRM 2 (= the reporter) clears it *)
+Example C13_ex_bcast_step_solicited :
+  let s := ex_run false [(ex_bcast BMandatory, []); (ex_req 2, [ex_evinfo])] in
+  ex_view s = (CSolWait {| se_ecsn := 2; se_fin := true |} 5001 RStep2, true, Some BMandatory, Some (false, 2)) /\
+  s_last_bcast (fst (ostep (ex_cfg false) s (ex_confirm false 3) [])) = Some BMandatory /\
+  s_last_bcast (fst (ostep (ex_cfg false) s (ESleep 100) [])) = Some BMandatory /\
+  s_last_bcast (fst (ostep (ex_cfg false) s (ex_confirm false 2) [])) = None /\
+  bcast_cause (ex_cfg false) s 1 None (DOk 194 0 RvOk (ObjOk [] [])).
+Proof. exact ex_bcast_step_solicited. Qed.
+
+(* unsolicited confirm wait: the unsolicited CONFIRM 0 does not clear an indication reported by the
+   solicited response 5, the solicited CONFIRM 5 does *)
+Example C13_ex_bcast_step_unsolicited :
+  let s := ex_run true [(ex_bcast BMandatory, []); (ex_req 5, [ex_evinfo])] in
+  (exists resp dl, s_control s = CUnsolWait resp true (Some 0%nat) dl /\ ctl_seq (r_ctl resp) = 0) /\
+  s_last_bcast s = Some BMandatory /\ s_bcast_rep s = Some (false, 5) /\
+  ex_view (fst (ostep (ex_cfg true) s (ex_confirm true 0) [])) = (CIdle, true, Some BMandatory, Some (false, 5)) /\
+  s_last_bcast (fst (ostep (ex_cfg true) s (ex_confirm false 5) [])) = None /\
+  bcast_cause (ex_cfg true) s 1 None (DOk 197 0 RvOk (ObjOk [] [])) /\
+  s_last_bcast (ex_run true [(ex_bcast BOptional, [])]) = Some BOptional /\
+  s_last_bcast (ex_run true [(ex_bcast BOptional, []); (ex_req 5, [ex_evinfo])]) = None.
+Proof. exact ex_bcast_step_unsolicited. Qed.
+
+(* the solicited confirm wait entered by REPEATING a stored response has no reporter recorded, and its
+   CONFIRM still clears the indication: "CSolWait se -> mandatory pending -> s_bcast_rep = Some (false,
+   se_ecsn se)" is not an invariant (hence the third exception in C13_mandatory_step) *)
+Example C13_ex_solwait_without_reporter :
+  let h := [(ex_bcast BMandatory, []); (ex_req 5, [ex_evinfo]); (ESleep 6000, []); (ex_bcast BMandatory, [])] in
+  let s := ex_run false (h ++ [(ex_req 5, [])]) in
+  snd (ostep (ex_cfg false) (ex_run false h) (ex_req 5) [])
+    = [OInfo (IIdleRequest 24 5); OTx 1 [229; 129; 155; 40]; OInfo (IEnterSolWait 5)] /\
+  ex_view s = (CSolWait {| se_ecsn := 5; se_fin := true |} 11003 RStep2, true, Some BMandatory, None) /\
+  ex_view (fst (ostep (ex_cfg false) s (ex_confirm false 5) [])) = (CIdle, true, None, None).
+Proof. exact ex_solwait_without_reporter. Qed.
+
+Example C13_ex_write_solicited_reports :
+  let s := upd_answers (ex_run false [(ex_bcast BMandatory, [])]) [ex_evinfo] in
+  let '(s1, r1, o) := write_solicited s 1 (empty_solicited 2 0) in
+  s_last_bcast s = Some BMandatory /\
+  r1 = {| r_ctl := 226; r_fn := 129; r_iin1 := 155; r_iin2 := 40; r_size := 0 |} /\
+  o = [ODb DbEvinfo; OTx 1 [226; 129; 155; 40]] /\
+  s_last_bcast s1 = Some BMandatory /\ s_bcast_rep s1 = Some (false, 2) /\ ctl_con 226 = true.
+Proof. exact ex_write_solicited_reports. Qed.
+
+Example C13_ex_write_unsolicited_reports :
+  let s := upd_answers (ex_run false [(ex_bcast BMandatory, [])]) [ex_evinfo] in
+  let '(s1, r1, o) := write_unsolicited (ex_cfg false) s (unsol_header 3 0) in
+  r1 = {| r_ctl := 243; r_fn := 130; r_iin1 := 155; r_iin2 := 40; r_size := 0 |} /\
+  o = [ODb DbEvinfo; OTx 1 [243; 130; 155; 40]] /\
+  s_last_bcast s1 = Some BMandatory /\ s_bcast_rep s1 = Some (true, 3).
+Proof. exact ex_write_unsolicited_reports. Qed.
+
+(* reported once: response 2 carries IIN1.0 (155), response 3 does not (154) *)
+Example C13_ex_bcast_reported_once :
+  let s := ex_run false [(ex_bcast BOptional, [])] in
+  s_last_bcast s = Some BOptional /\
+  snd (ostep (ex_cfg false) s (ex_req 2) [ex_evinfo])
+    = [OInfo (IIdleRequest 24 2); ODb DbEvinfo; OTx 1 [194; 129; 155; 40]] /\
+  s_last_bcast (fst (ostep (ex_cfg false) s (ex_req 2) [ex_evinfo])) = None /\
+  snd (ostep (ex_cfg false) (fst (ostep (ex_cfg false) s (ex_req 2) [ex_evinfo])) (ex_req 3) [ex_evinfo])
+    = [OInfo (IIdleRequest 24 3); ODb DbEvinfo; OTx 1 [195; 129; 154; 40]].
+Proof. exact ex_bcast_reported_once. Qed.
+
+Example C13_ex_response_iin_indication :
+  s_last_bcast (fst (fst (response_iin (ex_run false [(ex_bcast BMandatory, [])])))) = Some BMandatory /\
+  s_last_bcast (fst (fst (response_iin (ex_run false [(ex_bcast BNotRequired, [])])))) = None /\
+  s_last_bcast (fst (fst (response_iin (ex_st0 false)))) = None.
+Proof. exact ex_response_iin_indication. Qed.
+
+Example C13_ex_session_reset_bits :
+  let s := ex_run false [(ex_bcast BMandatory, []); (ex_req 2, [ex_evinfo])] in
+  s_bcast_rep s = Some (false, 2) /\
+  ex_view (session_reset s)
+  = (CSolWait {| se_ecsn := 2; se_fin := true |} 5001 RStep2, true, Some BMandatory, None).
+Proof. exact ex_session_reset_bits. Qed.
+
+(* a reconnect while a reported confirm-mandatory indication awaits its CONFIRM: indication and restart
+   bit survive, the reporter is forgotten, so a late CONFIRM 2 does not clear it *)
+Example C13_ex_disconnect_step :
+  let s := ex_run false [(ex_bcast BMandatory, []); (ex_req 2, [ex_evinfo])] in
+  let s' := fst (ostep (ex_cfg false) s EDisconnect []) in
+  ex_view s' = (CIdle, true, Some BMandatory, None) /\
+  s_last_bcast (fst (ostep (ex_cfg false) s' (ex_confirm false 2) [])) = Some BMandatory.
+Proof. exact ex_disconnect_step. Qed.
